@@ -37,6 +37,16 @@ PubOK(e) ==
           /\ e.keys.verify = "ok"
           /\ e.keys.verify_shorter # "ok" /\ e.keys.verify_longer # "ok" /\ e.keys.verify_edited # "ok"
 
+\* an accumulator witnessed from the fixed-base names in the logged order and exposed by the verifier gadget:
+\* whatever that order, the circuit binds exactly the off-circuit encoding, which is AccEncode
+AccOK(e) ==
+  /\ MsmTyped(e.lhs) /\ MsmTyped(e.rhs)
+  /\ {e.names[i] : i \in 1..Len(e.names)} = {e.rhs.fixed[i].name : i \in 1..Len(e.rhs.fixed)}
+  /\ e.offchain = AccEncode(e.lhs, e.rhs)
+  /\ e.status = "sat" /\ e.exposed = e.offchain
+  /\ e.status_enc = "sat"
+  /\ \A j \in 1..Len(e.edits) : e.edits[j].status # "sat"
+
 CurveOK(e) ==
   LET c == CurveOf(e.curve) IN
   /\ Trim(e.p) = c.p /\ Trim(e.r) = c.r /\ Trim(e.a) = c.a
@@ -47,7 +57,8 @@ TInitL == l = 1
 THeader == l <= Len(Rec) /\ Ev.ev = "header" /\ Trim(Ev.native) = Native /\ l' = l + 1
 TCurve == l <= Len(Rec) /\ Ev.ev = "Curve" /\ CurveOK(Ev) /\ l' = l + 1
 TPub == l <= Len(Rec) /\ Ev.ev = "Pub" /\ PubOK(Ev) /\ l' = l + 1
-TraceSpec == TInitL /\ [][THeader \/ TCurve \/ TPub]_l
+TAcc == l <= Len(Rec) /\ Ev.ev = "Acc" /\ AccOK(Ev) /\ l' = l + 1
+TraceSpec == TInitL /\ [][THeader \/ TCurve \/ TPub \/ TAcc]_l
 
 TraceAccepted ==
   LET d == TLCGet("stats").diameter IN
